@@ -62,6 +62,19 @@ func verifyAll(p *channel.Params, st *channel.State, sigs []wallet.Sig) bool {
 	return true
 }
 
+func sameParticipant(a, b map[wallet.BackendID]wallet.Address) bool {
+	if len(a) != len(b) {
+		return false
+	}
+	for id, x := range a {
+		y, ok := b[id]
+		if !ok || !x.Equal(y) {
+			return false
+		}
+	}
+	return true
+}
+
 // share returns, per asset, what parent participant p holds in the virtual channel state vs
 // through the index map im.
 func share(vs *channel.State, im []channel.Index, p int, asset int) *big.Int {
@@ -107,6 +120,21 @@ func acceptableAtHub(params *channel.Params, vIdx channel.Index, cur, st *channe
 			if int(idx) >= n {
 				return false, "index map entry out of range"
 			}
+		}
+		// the peer pays for itself, the hub stands in for everybody else
+		peerIsParticipant := false
+		for j, part := range ini.Params.Parts {
+			isPeer := sameParticipant(part, params.Parts[peer])
+			peerIsParticipant = peerIsParticipant || isPeer
+			switch {
+			case isPeer && m.IndexMap[j] != peer:
+				return false, fmt.Sprintf("the index map lets participant %d of the parent pay the share of the proposing peer (virtual participant %d)", m.IndexMap[j], j)
+			case !isPeer && m.IndexMap[j] != vIdx:
+				return false, fmt.Sprintf("the index map lets the peer pay the share of virtual participant %d instead of the hub standing in for it", j)
+			}
+		}
+		if !peerIsParticipant {
+			return false, "the proposing peer is not a participant of the virtual channel"
 		}
 		if len(ini.State.Assets) != len(cur.Assets) {
 			return false, "assets differ"
@@ -521,8 +549,21 @@ func hubHistory(s sink.Sink, em *childrun.Emitter, rng *rand.Rand, sample bool) 
 	for ai := range alloc.Balances {
 		alloc.Balances[ai] = []channel.Bal{bal(1 + int64(rng.Intn(6))), bal(1 + int64(rng.Intn(6)))}
 	}
+	imaps := [][]channel.Index{{0, 1}, {1, 0}}
+	swapped := rng.Intn(12) == 0
+	if swapped {
+		// through the public API alone: M announces a swapped index map for her own parent, so that
+		// the hub would put up M's share and M the (smaller) share of the partner
+		imaps = [][]channel.Index{{1, 0}, {1, 0}}
+		fe = hubFundEdits[0]
+		fe.name = "proposal-with-swapped-index-map-for-the-proposers-parent"
+		for ai := range alloc.Balances {
+			alloc.Balances[ai] = []channel.Bal{bal(2 + int64(rng.Intn(6))), bal(0)}
+		}
+		a.setCase(point, fe.name)
+	}
 	prop, err := client.NewVirtualChannelProposal(10, a.M.WAddr, alloc, []map[wallet.BackendID]wire.Address{a.M.Wire, a.B.Wire},
-		[]channel.ID{a.mvM.ID(), a.bvB.ID()}, [][]channel.Index{{0, 1}, {1, 0}})
+		[]channel.ID{a.mvM.ID(), a.bvB.ID()}, imaps)
 	if err != nil {
 		s.Inconclusive("hub arena: " + err.Error())
 		return 1
@@ -541,6 +582,9 @@ func hubHistory(s sink.Sink, em *childrun.Emitter, rng *rand.Rand, sample bool) 
 	if fe.name != "control-honest-funding" {
 		a.M.Timeout = 1500 * time.Millisecond
 	}
+	if swapped {
+		a.M.Timeout = 12 * time.Second // the hub answers after its matching wait of 10 s
+	}
 	ctx, cancel := a.M.Ctx()
 	vch, err := a.M.Client.ProposeChannel(ctx, prop)
 	cancel()
@@ -554,7 +598,10 @@ func hubHistory(s sink.Sink, em *childrun.Emitter, rng *rand.Rand, sample bool) 
 	s.Case(point+"|"+fe.name, applied)
 	s.Seen("crafted_kinds", "virtual-funding/"+fe.name)
 	s.Seen("life_points", point)
-	if !report() || err != nil || (applied && !strings.HasPrefix(fe.name, "control")) {
+	if swapped {
+		applied = true
+	}
+	if !report() || err != nil || swapped || (applied && !strings.HasPrefix(fe.name, "control")) {
 		return n
 	}
 	virtB := a.B.AwaitChannelNoWatch(vch.ID())
